@@ -1,10 +1,11 @@
 (* Properties_C04.v — C04: variants loses no nucleotide difference and every aa call is a true translation.
-   PARTIAL: proved here are the coordinate map, the coding/intergenic partition and the intergenic SNP
-   rule; the per-codon decision and merge/dedupe are covered by the correspondence check and by the
-   statement-level oracle (every row of the implementation's output checked against disjoint positions
-   and the standard genetic code), not yet by a theorem. *)
+   Proved: the coordinate map, the coding/intergenic partition, the intergenic SNP rule, the codon loop as a function
+   of the feature's codons (which codon yields an aa: record, with which residue, alleles, feature and SNP list), the
+   dictionary product = the standard genetic code, what the merged and the final list mention (none invented, none
+   dropped).  PARTIAL: the aa: statement is proved per feature (getAAsPair); that the sort and the duplicate removal keep
+   every aa: record is proved only under the stated aa_uniq side condition; GenBank /translation text is an input. *)
 From Coq Require Import Floats.SpecFloat.
-From GF Require Import Base Alphabet Symbols FastaModel Float TopK CodonModel Indels VariantsModel VariantsProofs.
+From GF Require Import Base Alphabet Symbols FastaModel Float TopK CodonModel Indels VariantsModel VariantsProofs AaProofs.
 Open Scope N_scope.
 
 (* reference position p is looked up in its own alignment column, whatever insertions the alignment has *)
@@ -75,3 +76,45 @@ Theorem C04_nuc_mentions_complete : forall ref que gs,
   forall p, (1 <= p <= length (filter nongap ref))%nat -> dis ref que (ref_to_msa ref) p = true -> In p (flat_map snd out).
 Proof. exact nuc_mentions_complete. Qed.
 Print Assumptions C04_nuc_mentions_complete.
+
+(* ---- the aa: rule ---- *)
+(* the codon loop of one feature, as a function: consecutive triples of the feature's position list (strand and joins
+   are in the list), residue k+1 against the k-th reference residue; any feature, any rows, any length *)
+Theorem C04_codon_loop_spec : forall ref que r2m g,
+  (forall p, In p (g_pos g) -> (nth (align_pos r2m p) ref 0 =? 244) = false) ->
+  get_aas_traced ref que r2m g = match codon_spec ref que r2m g 0 (g_pos g) with Some l => Ok l | None => Panic end.
+Proof. exact codon_loop_spec. Qed.
+Print Assumptions C04_codon_loop_spec.
+
+(* an aa: record is emitted for codon j exactly when the query codon's product (on the feature's strand) is neither
+   'X' nor the reference residue, and it then carries residue j+1, both residues, the feature's name (and the codon's
+   SNPs); conversely every such codon has its record: sound and complete *)
+Theorem C04_aa_records_exact : forall ref que r2m g out,
+  (forall p, In p (g_pos g) -> (nth (align_pos r2m p) ref 0 =? 244) = false) ->
+  get_aas_traced ref que r2m g = Ok out -> forall x,
+  (In x out /\ v_kind (fst x) = KAA <->
+   exists j ra, (3 * j + 2 < length (g_pos g))%nat /\ nth_error (g_trans g) j = Some ra /\
+     let p1 := nth (3 * j) (g_pos g) 0%nat in let p2 := nth (3 * j + 1) (g_pos g) 0%nat in let p3 := nth (3 * j + 2) (g_pos g) 0%nat in
+     let aa := aa_lookup g (dec (qsym que r2m p1) ++ dec (qsym que r2m p2) ++ dec (qsym que r2m p3)) in
+     aa <> [ra] /\ aa <> [88] /\ codon_out ref que r2m g j p1 p2 p3 ra = [x] /\ v_kind (fst x) = KAA /\ v_queal (fst x) = aa /\
+     v_refal (fst x) = [ra] /\ v_residue (fst x) = S j /\ v_feature (fst x) = g_name g).
+Proof. exact aa_records_exact. Qed.
+Print Assumptions C04_aa_records_exact.
+
+(* the product looked up is a single residue, and it is b (not 'X') iff the strand-adjusted codon consists of three
+   IUPAC codes all of whose A/C/G/T expansions translate to b under the standard genetic code *)
+Theorem C04_aa_lookup_is_genetic_code : forall g c b, b <> 88 ->
+  (aa_lookup g c = [b] <->
+   exists c1 c2 c3, strand g c = [c1; c2; c3] /\ In c1 iupac15 /\ In c2 iupac15 /\ In c3 iupac15 /\ unique_product c1 c2 c3 = Some b).
+Proof. exact aa_lookup_is_genetic_code. Qed.
+Print Assumptions C04_aa_lookup_is_genetic_code.
+Theorem C04_aa_lookup_single : forall g c, exists b, aa_lookup g c = [b].
+Proof. exact aa_lookup_single. Qed.
+Print Assumptions C04_aa_lookup_single.
+
+(* the reference residues of the GFF path: strict translation gives, per codon, the unique product of the codon *)
+Theorem C04_reference_residues_are_code : forall nuc tr, Forall (fun c => In c iupac15) nuc -> translate true nuc = Ok tr ->
+  exists cs, codons (length nuc) nuc = Some cs /\
+    forall k a b c, nth_error cs k = Some (a, b, c) -> exists v, unique_product a b c = Some v /\ nth_error tr k = Some v.
+Proof. exact reference_residues_are_code. Qed.
+Print Assumptions C04_reference_residues_are_code.
